@@ -1,30 +1,48 @@
 /-
   C01 — lexing and parsing are total.
 
-  FULL STATEMENT (target):
-    ∀ src, ulen src < 2^32 →
+  FULL STATEMENT (proved below as `parse_total`):
+    ∀ kw src, ulen src < 2^32 →
       (∃ p, parseProgram kw src = .ok p) ∨ (∃ e s, parseProgram kw src = .err e ∧ renderParseError e = .ok s)
   i.e. never `crash` (no panic / out-of-bounds slice / debug assertion), never `fuel`
-  (termination), and every error renders.
+  (termination), never `resource`, and every error renders — for every keyword table, every
+  `CharOps` (Unicode classification) and every number type, without further hypotheses.
 
-  Proved so far, for every keyword table, `CharOps` and number type:
+  The proof has four parts, each for every keyword table, `CharOps` and number type:
   * the lexer half at full strength (file C01Lex.lean): `lexAll_total` — no crash, no fuel,
-    no error, every slice / location precondition met;
+    no error, every slice / location precondition met; `snapshots_in_range`, `eof_snapshot`;
   * termination of the parser: the fuel `#tokens + 2` that `parseProgram` hands to the
-    record/fuel parser always suffices (`parse_terminates` below) — every grammar cycle and
-    every loop round consumes a token; this could not be proved while `Parser::parse` could
-    loop on a stray `else` (defect D2, repaired);
-  * combined: `parse_outcome_partial` — parsing a text under 4 GiB answers `ok`, `err` or
-    stops at one of the PARSER's own crash sites; it never diverges and the lexer never crashes.
-  What is missing for the full statement: unreachability of the parser's crash sites
-  (`parseConsume`, `parseOpUnwrap`, `parsePoeticText`, `lexCurrentLoc`, … — all guarded
-  locally by a preceding peek) and totality of `renderParseError` on the errors the parser
-  builds. Until then those are carried by the correspondence run and the no-panic oracle.
+    record/fuel parser always suffices (`parse_terminates`) — every grammar cycle and every loop
+    round consumes a token; this could not be proved while `Parser::parse` could loop on a stray
+    `else` (defect D2, repaired);
+  * `lexed_tokens_ok` + `parser_never_crashes`: the token list of the lexer satisfies the
+    invariant `ToksOk` (spelling = slice of the source at the token's offset, non-empty
+    spellings, tokens in source order, lexer snapshots in range), and on states satisfying the
+    invariant `StOk` no function of the parser, at any recursion depth, reaches a crash site
+    (`parseConsume`, `parseOpUnwrap`, `parseTakeFirst`, `parseExtractRange`, `parseCapFirstChar`,
+    `parseNegNumber`, `parsePoeticText`, `parsePushRhs`, `lexCurrentLoc`, `lexStagedIndex`) or
+    answers `resource`; results are again `StOk` states;
+  * `render_total`: every error any parser function returns is `ErrRenderable` (an
+    `UnexpectedToken` error carries a token, an `ExpectedOneOfTokens` list is not empty, a
+    `MutationOperandMustBeIdentifier` operand is not an identifier), and `Display for ParseError`
+    does not panic on such errors (sites `dispWriteList`, `dispUnexpectedToken`, `dispExpectedId`).
+  (Definitions: Rrss/Lemmas/ParserInv.lean; one lemma per parser function:
+  Rrss/Lemmas/ParserNoCrash.lean; assembly: Rrss/Lemmas/ParserTotal.lean.)
+
+  What is NOT covered by these theorems and stays with the correspondence run / no-panic oracle:
+  * stack depth: the Rust parser is recursive-descent; a deeply nested input (long chains of
+    `not`, `roll`, nested blocks) can exhaust the native stack, which the model (fuel = number
+    of tokens + 2) does not represent;
+  * how a reached crash site would manifest in a release build (UB instead of a panic): moot for
+    the sites shown unreachable here, but it relies on the model listing ALL sites of parser.rs
+    and parser/display.rs (the tie checks this on inputs, it is not a theorem);
+  * inputs of 4 GiB or more (`u32` columns of the lexer).
 -/
-import Rrss.Lemmas.ParserFuel
+import Rrss.Lemmas.ParserTotal
 import Rrss.Thm.C01Lex
 namespace Rrss.Thm.C01
 open Rrss Rrss.Parser
+open Rrss.Lexer (asciiOps defaultKeywords exSrc exViews exSrc_lexes view)
 
 variable [CharOps] {N : Type} [NumOps N]
 
@@ -38,5 +56,155 @@ theorem parse_terminates (kw : List (Str × TK)) (src : Str) :
 theorem parse_expression_terminates (kw : List (Str × TK)) (src : Str) :
     (parseExpressionSrc kw src : Outcome (ParseErr N) (Expr N)) ≠ .fuel :=
   parseExpressionSrc_fuel_sufficient kw src
+
+/-- **The lexer hands the parser what it needs.** For a source text under 4 GiB, the token list
+    the parser reads (the raw tokens minus comments) satisfies `ToksOk src`: every token's
+    spelling is the slice of `src` that starts at the token's byte offset and is not empty, the
+    lexer snapshot recorded after it satisfies `line_start ≤ idx ≤ len`, and the tokens are in
+    source order without overlap; and the initial parser state satisfies the state invariant
+    `StOk` (tokens `ToksOk`, the snapshots `last` and `eof` in range). -/
+theorem lexed_tokens_ok {kw : List (Str × TK)} {src : Str} {raw : List (Tok N)}
+    (hlen : ulen src < 2 ^ 32) (h : Lexer.lexAll kw src = .ok raw) :
+    ToksOk src (skipComments raw) ∧ StOk (initState src raw) :=
+  ⟨(toksOk_of_lex hlen h).filter _, initState_ok hlen h⟩
+
+/-- non-vacuity: the example text of C01Lex (nine tokens, among them a two-line string, staged
+    `'s` suffixes and an error token) lexes, and its tokens and initial state satisfy the
+    invariants -/
+example : ∃ raw : List (Tok Int), raw.map view = exViews ∧
+    @ToksOk Int exSrc (skipComments raw) ∧ StOk (initState exSrc raw) := by
+  obtain ⟨raw, h, hv⟩ := exSrc_lexes
+  exact ⟨raw, hv, @lexed_tokens_ok asciiOps Int numOpsInt _ _ _ (by decide) h⟩
+
+omit [NumOps N] in
+/-- **What `Safe p` says** (the notion `parser_never_crashes` is stated with): started on any
+    state satisfying the invariant `StOk`, the parser action `p` does not stop at a crash site,
+    does not answer `resource`, every error it returns is `ErrRenderable`, and every state it
+    returns satisfies `StOk` again. (It may answer `fuel`; that the fuel given by `parseProgram`
+    suffices is `parse_terminates`.) -/
+theorem safe_means {α : Type} (p : P N α) :
+    Safe p ↔ ∀ st, StOk st →
+      (∀ s, p st ≠ .crash s) ∧ p st ≠ .resource ∧ (∀ e, p st = .err e → ErrRenderable e) ∧
+      (∀ a st', p st = .ok (a, st') → StOk st') :=
+  safe_iff p
+
+omit [NumOps N] in
+/-- **The parser never crashes.** At every recursion depth `n`, every one of the 18 functions of
+    the parser record `parser n` (unary and primary expressions, subscript chains, the binary /
+    list / comparison loops, argument and parameter lists, poetic literals, build/knock counting,
+    capitalized identifiers, blocks, function blocks, the three statement loops, and the entry
+    points `expression` and `program`) is `Safe` in the sense of `safe_means`: on states whose
+    tokens are `ToksOk` and whose snapshots are in range it reaches no crash site — the `consume`
+    after a peek, the operator `unwrap`s, `take_first`, `extract_unchecked`,
+    `spelling.chars().next().unwrap()`, `is_current_negative_number`, the literal-text slice and
+    `strip_prefix(..).unwrap()` of poetic strings, the `Like`/`With` dispatch, `current_loc` —
+    never answers `resource`, returns only renderable errors and only `StOk` states. -/
+theorem parser_never_crashes (n : Nat) : RecOk (parser n : Rec N) :=
+  parser_ok n
+
+omit [NumOps N] in
+/-- `parser_never_crashes` for the entry point `Parser::parse`, spelled out -/
+theorem program_never_crashes (n : Nat) (st : PState N) (hst : StOk st) :
+    (∀ s, (parser n).program st ≠ .crash s) ∧ (parser n).program st ≠ .resource ∧
+    (∀ e, (parser n).program st = .err e → ErrRenderable e) ∧
+    (∀ a st', (parser n).program st = .ok (a, st') → StOk st') :=
+  (safe_iff _).mp (parser_ok n).program st hst
+
+omit [NumOps N] in
+/-- **Every parse error renders.** (a) `Display for ParseError` does not panic on an
+    `ErrRenderable` error; (b) hence every error returned by a `Safe` parser action started on a
+    `StOk` state — by `parser_never_crashes`: every function of the parser at every depth —
+    renders to a string. -/
+theorem render_total :
+    (∀ e : ParseErr N, ErrRenderable e → ∃ s, renderParseError e = .ok s) ∧
+    (∀ {α : Type} (p : P N α), Safe p → ∀ st, StOk st → ∀ e, p st = .err e →
+      ∃ s, renderParseError e = .ok s) :=
+  ⟨fun _ h => renderParseError_ok h,
+   fun p hp st hst e he => renderParseError_ok (((safe_iff p).mp hp st hst).2.2.1 e he)⟩
+
+/-- non-vacuity: the predicate is neither empty nor trivial — an `ExpectedOneOfTokens` error with
+    a non-empty list at a line location is renderable, an `UnexpectedToken` error
+    without a token is not -/
+example : ErrRenderable (⟨.expectedOneOfTokens [.up, .down, .round], .line 3⟩ : ParseErr Int) ∧
+    ¬ ErrRenderable (⟨.unexpectedToken, .line 3⟩ : ParseErr Int) :=
+  ⟨errRenderable_of_codeSafe rfl,
+   fun h => by obtain ⟨t, ht⟩ := h.1 rfl; cases ht⟩
+
+/-- **C01, THE FULL THEOREM: lexing and parsing are total.** For every source text under 4 GiB,
+    every keyword table, every Unicode classification and every number type, `parser::parse`
+    (lexing, comment skipping, parsing) returns a program, or returns a parse error whose
+    `Display` rendering succeeds. It never reaches a crash site of the lexer, the parser or the
+    error display, and the model's own budgets (`fuel`, `resource`) are never exhausted. -/
+theorem parse_total (kw : List (Str × TK)) (src : Str) (hlen : ulen src < 2 ^ 32) :
+    (∃ p : Program N, parseProgram kw src = .ok p) ∨
+    (∃ (e : ParseErr N) (s : Str), parseProgram kw src = .err e ∧ renderParseError e = .ok s) := by
+  rcases runOn_total (N := N) (fun r => r.program) (fun n => (parser_good n).program)
+      (fun n => (parser_ok n).program) kw src hlen with ⟨p, hp⟩ | ⟨e, he, hr⟩
+  · exact Or.inl ⟨p, hp⟩
+  · obtain ⟨s, hs⟩ := renderParseError_ok hr
+    exact Or.inr ⟨e, s, he, hs⟩
+
+/-- The same for the expression entry point `Parser::for_source_code(text).parse_expression()`. -/
+theorem parse_expression_total (kw : List (Str × TK)) (src : Str) (hlen : ulen src < 2 ^ 32) :
+    (∃ x : Expr N, parseExpressionSrc kw src = .ok x) ∨
+    (∃ (e : ParseErr N) (s : Str),
+      parseExpressionSrc kw src = .err e ∧ renderParseError e = .ok s) := by
+  rcases runOn_total (N := N) (fun r => r.expression) (fun n => (parser_good n).expression)
+      (fun n => (parser_ok n).expression) kw src hlen with ⟨p, hp⟩ | ⟨e, he, hr⟩
+  · exact Or.inl ⟨p, hp⟩
+  · obtain ⟨s, hs⟩ := renderParseError_ok hr
+    exact Or.inr ⟨e, s, he, hs⟩
+
+/-! ### non-vacuity: both outcomes occur, evaluated through the real pipeline by the kernel
+    (ASCII tables, integer numbers, the real keyword table; the two well-founded lexer loops go
+    through their fuel copies, `lexLoopF_sound`) -/
+
+/-- a stray `else` (defect D2: used to loop forever) is a rendered parse error -/
+example : ∃ e : ParseErr Int,
+    @parseProgram Int asciiOps numOpsInt defaultKeywords (str% "say 1\nelse\n") = .err e ∧
+    @renderParseError Int e = .ok (str% "Parse error (line 2): Unexpected token `else`") :=
+  @parseReportF_err Int asciiOps numOpsInt _ 100 _ _ (by decide +kernel)
+
+/-- an unterminated string is an error token, hence a rendered parse error -/
+example : ∃ e : ParseErr Int,
+    @parseProgram Int asciiOps numOpsInt defaultKeywords (str% "say \"abc") = .err e ∧
+    @renderParseError Int e =
+      .ok (str% "Parse error (line 1): Expected primary expression, found `\"abc`") :=
+  @parseReportF_err Int asciiOps numOpsInt _ 100 _ _ (by decide +kernel)
+
+/-- `say 1⏎foo1` (defect D1: used to slice out of bounds in the lexer) is a rendered parse error -/
+example : ∃ e : ParseErr Int,
+    @parseProgram Int asciiOps numOpsInt defaultKeywords (str% "say 1\nfoo1") = .err e ∧
+    @renderParseError Int e = .ok (str% "Parse error (line 2): Unexpected token `foo1`") :=
+  @parseReportF_err Int asciiOps numOpsInt _ 100 _ _ (by decide +kernel)
+
+/-- the three guarded shapes of `ErrRenderable` occur: the explicit-token `UnexpectedToken` of the
+    hyphen case, a non-empty `ExpectedOneOfTokens` list, a non-identifier mutation operand -/
+example : (∃ e : ParseErr Int,
+      @parseProgram Int asciiOps numOpsInt defaultKeywords (str% "X is a-,\n") = .err e ∧
+      @renderParseError Int e = .ok (str% "Parse error (line 1): Unexpected token `,`")) ∧
+    (∃ e : ParseErr Int,
+      @parseProgram Int asciiOps numOpsInt defaultKeywords (str% "turn 1\n") = .err e ∧
+      @renderParseError Int e =
+        .ok (str% "Parse error (line 1): Expected `up`, `down`, or `round`, found `\n`")) ∧
+    (∃ e : ParseErr Int,
+      @parseProgram Int asciiOps numOpsInt defaultKeywords (str% "cut 1\n") = .err e ∧
+      @renderParseError Int e = .ok (str% "Parse error (line 1): Mutation operand with no " ++
+        str% "`into` destination must be identifier; found literal")) :=
+  ⟨@parseReportF_err Int asciiOps numOpsInt _ 100 _ _ (by decide +kernel),
+   @parseReportF_err Int asciiOps numOpsInt _ 100 _ _ (by decide +kernel),
+   @parseReportF_err Int asciiOps numOpsInt _ 100 _ _ (by decide +kernel)⟩
+
+/-- a text that exercises the guarded sites (capitalized and common identifiers, a function with
+    parameters and call, `if`/`else`, expression lists, a poetic number and a poetic string —
+    the literal-text slice —, `listen` — `current_loc` —, mutation, rounding, push/pop) parses
+    to a program; it is under 4 GiB -/
+example : (∃ p : Program Int, @parseProgram Int asciiOps numOpsInt defaultKeywords
+      (str% "Tommy Lee takes X and Y\nif X is as big as 18\nsay X plus 1, 2\nelse\n" ++
+        str% "shout \"no\"\n\ngive back Y\n\nMy heart says hello\nIt is -1\nlisten\n" ++
+        str% "cut My heart into the pieces with \"l\"\nturn up X\nrock the pieces with 1, 2\n" ++
+        str% "roll the pieces into X\nbuild X up, up\nput Tommy Lee taking 1, 2 into X\n") = .ok p) ∧
+    ulen (str% "say 1\nelse\n") < 2 ^ 32 :=
+  ⟨@parseReportF_ok Int asciiOps numOpsInt _ 200 _ (by decide +kernel), by decide⟩
 
 end Rrss.Thm.C01
